@@ -53,6 +53,7 @@ type c16Step struct {
 	data2    []byte // duplex: what the peer sends meanwhile; cwrite: the second writer's bytes
 	cuts2    []int
 	idle     time.Duration // idle: how long the read stays blocked before the peer sends
+	until    time.Duration // age / idle / traffic: the session age (since Open returned) to reach
 	maxReads int           // read: 0 = until drained
 	readN    int           // read: 0 = Transport.Read() (Args.ReadSize), else Transport.ReadN(readN)
 }
@@ -81,11 +82,12 @@ type c16Variant struct {
 	defaultN bool     // no WithTransportReadSize: the transport's default read size
 	reject   string   // open-abort scenarios: where the peer refuses (see c16OpenAbort)
 	// ssh-argument dimensions of the system transport (real OpenSSH, and the argv-recording stand-in)
-	cfg        string // ssh config file: "" none, minimal, unrelated, escape, escape-ctrl, system
-	strict     bool   // strict host key checking left on
-	knownHosts bool   // a known-hosts file (holding the server's key) is given
-	user       bool   // a user name is given
-	argvScript bool   // system: the stand-in is started through a script that records its argv (no args override)
+	cfg        string        // ssh config file: "" none, minimal, unrelated, escape, escape-ctrl, system
+	strict     bool          // strict host key checking left on
+	knownHosts bool          // a known-hosts file (holding the server's key) is given
+	user       bool          // a user name is given
+	argvScript bool          // system: the stand-in is started through a script that records its argv (no args override)
+	sockT      time.Duration // TimeoutSocket of the case (0: the harness default); aged cases run past multiples of it
 }
 
 type c16Read struct {
@@ -271,6 +273,9 @@ func c16TransportOptsV(kind, mode string, opening []byte, seed uint64, v c16Vari
 			l.Close()
 		}
 		opts := []util.Option{options.WithPort(l.Port), options.WithTimeoutSocket(c16TelnetSocket)}
+		if v.sockT > 0 {
+			opts = append(opts, options.WithTimeoutSocket(v.sockT))
+		}
 		return opts, func() (*c16Conn, error) {
 			a := <-ch
 			if a.err != nil {
@@ -287,6 +292,9 @@ func c16TransportOptsV(kind, mode string, opening []byte, seed uint64, v c16Vari
 		opts := []util.Option{options.WithPort(srv.Port), options.WithAuthNoStrictKey(),
 			options.WithAuthUsername("u"), options.WithAuthPassword("p"),
 			options.WithTimeoutSocket(c16OpenBound), c16Netconf(mode == "netconf")}
+		if v.sockT > 0 {
+			opts = append(opts, options.WithTimeoutSocket(v.sockT))
+		}
 		if v.cipher != "" {
 			opts = append(opts, options.WithStandardTransportExtraCiphers([]string{v.cipher}))
 		}
@@ -320,6 +328,9 @@ func c16TransportOptsV(kind, mode string, opening []byte, seed uint64, v c16Vari
 		opts := []util.Option{options.WithPort(srv.Port),
 			options.WithAuthUsername("u"), options.WithAuthPassword("p"),
 			options.WithTimeoutSocket(c16OpenBound), c16Netconf(mode == "netconf")}
+		if v.sockT > 0 {
+			opts = append(opts, options.WithTimeoutSocket(v.sockT))
+		}
 		opts = append(opts, c16SSHFileOpts(v, seed, knownhosts.Line([]string{fmt.Sprintf("[127.0.0.1]:%d", srv.Port)}, srv.HostKey))...)
 		return opts, func() (*c16Conn, error) {
 			s, err := srv.NextSession(c16OpenBound)
@@ -350,6 +361,9 @@ func c16TransportOptsV(kind, mode string, opening []byte, seed uint64, v c16Vari
 			if v.user {
 				opts = append(opts, options.WithAuthUsername("operator"))
 			}
+		}
+		if v.sockT > 0 {
+			opts = append(opts, options.WithTimeoutSocket(v.sockT))
 		}
 		return opts, func() (*c16Conn, error) {
 			c, err := l.Accept(c16OpenBound)
@@ -556,7 +570,49 @@ func c16GenCase(kind, mode string, n int, class string, seed uint64, res *vlib.R
 		}
 		return c16Payload(r, s)
 	}
-	if class == "1MiB" {
+	if class == "aged" {
+		// the session outlives its TimeoutSocket: everything that works right after Open must work
+		// after 1x, 2x, 3x that age — a write after idling, a read blocked across the boundary,
+		// continuous traffic across the boundary; both directions are exercised after every boundary
+		T, K := time.Second, 3
+		switch kind {
+		case "telnet":
+			T = c16TelnetSocket
+		case "openssh":
+			T, K = 2*time.Second, 2
+		}
+		cs.v.sockT = T
+		cs.multi = true
+		small := func() []byte { return c16Payload(r, r.Range(1, c16min(n, 1500)+1)) }
+		both := func() {
+			d, d2 := small(), small()
+			cs.steps = append(cs.steps, c16Step{op: "write", data: d}, c16Step{op: "send", data: d2, cuts: []int{len(d2)}}, c16Step{op: "read"})
+		}
+		both()
+		for k := 1; k <= K; k++ {
+			boundary := time.Duration(k) * T
+			switch r.Intn(3) {
+			case 0:
+				cs.steps = append(cs.steps, c16Step{op: "age", until: boundary + boundary/10})
+				if res != nil {
+					res.Count("aged:idle-then-write")
+				}
+			case 1:
+				d := small()
+				cs.steps = append(cs.steps, c16Step{op: "idle", data: d, cuts: []int{len(d)}, until: boundary + boundary/10}, c16Step{op: "read"})
+				if res != nil {
+					res.Count("aged:read-blocked-across")
+				}
+			default:
+				cs.steps = append(cs.steps, c16Step{op: "age", until: boundary - T/5},
+					c16Step{op: "traffic", data: c16Payload(r, 64), until: boundary + T/4})
+				if res != nil {
+					res.Count("aged:traffic-across")
+				}
+			}
+			both()
+		}
+	} else if class == "1MiB" {
 		// one mebibyte towards the client (read with the case's read size), and half of the time one
 		// mebibyte towards the peer
 		cs.multi = true
@@ -823,6 +879,8 @@ func c16RunCase(cs *c16Case, seed uint64) *c16Out {
 		o.aborted = true
 		return o
 	}
+	tOpen := time.Now() // session age counts from here (later than any deadline armed during Open)
+	age := func() time.Duration { return time.Since(tOpen) }
 	rd := c16NewReader(tr)
 	defer close(rd.req)
 	if !tr.IsAlive() {
@@ -1068,9 +1126,27 @@ func c16RunCase(cs *c16Case, seed uint64) *c16Out {
 			if !doWrite(st.data, st.cuts, st.data2, st.cuts2) {
 				return o
 			}
+		case "age": // nothing happens until the session has the given age
+			if d := st.until - age(); d > 0 {
+				time.Sleep(d)
+			}
+		case "traffic": // small exchanges in both directions, back to back, until the session has the given age
+			for k := 0; age() < st.until; k++ {
+				lo := (k * 37) % (len(st.data) - 24)
+				if !doWrite(st.data[lo:lo+1+k%23], nil, st.data[lo+1:lo+2+(k*7)%22], []int{1 + (k*7)%22}) {
+					return o
+				}
+				time.Sleep(25 * time.Millisecond)
+			}
 		case "idle":
 			if !drain(0, 0) {
 				return o
+			}
+			if st.until > 0 { // the read stays blocked across the age boundary
+				st.idle = st.until - age()
+				if st.idle < 50*time.Millisecond {
+					st.idle = 50 * time.Millisecond
+				}
 			}
 			rd.start(0)
 			if r, ok := rd.wait(st.idle); ok {
@@ -1492,6 +1568,12 @@ func runC16(c *ctx) {
 			kms = append(kms, km{"openssh", "shell"})
 		} else {
 			res.Note("no ssh binary in PATH: byte-pipe histories over the system transport with the real OpenSSH client skipped")
+		}
+		// sessions that outlive their socket timeout: first, they take seconds and run beside the rest
+		for _, k := range kms {
+			for j := 0; j < c.n(1, 6); j++ {
+				cases = append(cases, c16GenCase(k.kind, k.mode, []int{8192, 16, 1024, 65536, 100, 1}[(j+r.Intn(2))%6], "aged", r.U64(), res))
+			}
 		}
 		for _, k := range kms {
 			if k.kind == "openssh" {
